@@ -182,6 +182,7 @@ func TestProp(t *testing.T) {
 		runDueCheckNotPassed(rep, env)
 		runAuthOnlyDirect(rep, env)
 		runPortSiblings(rep, env)
+		runStaleCopies(rep, env)
 	}
 	rep.Extra("wall_workload_s", time.Since(start).Seconds())
 	rep.Floor("backend_hits_authorised", 20)
@@ -1023,4 +1024,87 @@ func runPortSiblings(rep *vh.Report, env vh.Env) {
 	})
 	rep.Floor("port_sibling_foreign_session_refused", 60)
 	rep.Floor("port_sibling_own_host_served", 10)
+}
+
+// runStaleCopies: a session is refreshed (or revalidated) successfully through one copy of its cookie;
+// then the authenticator starts refusing; then ANOTHER copy of the cookie as it was BEFORE the check -
+// whose check is therefore still due - is presented. What the proxy remembers of the first copy's check
+// must not stand in for the second copy's: it has to ask, is refused, and the upstream is not reached.
+// (Added after seeded change C01m - the outcome of a successful refresh kept per refresh token for the
+// validity TTL and handed to later refresh-due copies - was missed: copies of one cookie were only ever
+// presented at the same time, never one after the other.)
+func runStaleCopies(rep *vh.Report, env vh.Env) {
+	ps, err := sut.NewProxyStack(sut.ProxyOpts{Upstreams: []sut.UpstreamSpec{
+		{Service: "dom", From: "stale.sso.test", AllowedEmailDomains: []string{"corp.test"}},
+		{Service: "grp", From: "stalegrp.sso.test", AllowedGroups: []string{"staff"}},
+	}})
+	if err != nil {
+		rep.Inconclusive("stale-copies stack did not start: " + err.Error())
+		return
+	}
+	defer ps.Close()
+	n := env.Pick(160, 2500)
+	vh.ForEach(n, 0, -1, func(i int) {
+		r := vh.CaseRNG(env.Seed, "c01-stale", i)
+		host := []string{"stale.sso.test", "stalegrp.sso.test"}[r.Intn(2)]
+		uid := sut.NewID()
+		email := "user" + uid + "@corp.test"
+		s := ps.Session(host, email, []string{"staff"})
+		at, rt, nt := "sat-"+uid, "srt-"+uid, "snt-"+uid
+		s.AccessToken, s.RefreshToken = at, rt
+		now := time.Now()
+		s.ValidDeadline = now.Add(-time.Duration(60+r.Intn(600)) * time.Second)
+		kind := []string{"refresh", "validate"}[r.Intn(2)]
+		if kind == "refresh" {
+			s.RefreshDeadline = now.Add(-time.Duration(60+r.Intn(600)) * time.Second)
+		}
+		cookie := ps.CookieName + "=" + ps.Seal(s)
+		ps.Auth.Set("refresh", rt, sut.RefreshOK(nt, 3600))
+		ps.Auth.Set("validate", at, sut.ValidateOK())
+		ps.Auth.Set("validate", nt, sut.ValidateOK())
+		ps.Auth.Set("profile", at, sut.ProfileOK(email, []string{"staff"}))
+		ps.Auth.Set("profile", nt, sut.ProfileOK(email, []string{"staff"}))
+		defer func() {
+			for _, k := range [][2]string{{"refresh", rt}, {"validate", at}, {"validate", nt}, {"profile", at}, {"profile", nt}} {
+				ps.Auth.Unset(k[0], k[1])
+			}
+		}()
+		first := ps.Client.Do(sut.Req{Host: host, Target: "/stale/" + uid, Cookies: []string{cookie}})
+		rep.Eval()
+		if first.Err != nil {
+			rep.Count("client_errors", 1)
+			return
+		}
+		if len(ps.Hits(first.ID)) == 0 {
+			rep.Count("stale_copies_first_copy_not_served", 1)
+			return
+		}
+		// the authenticator changes its mind: the grant is revoked, the user has left the group
+		refusal := []int{401, 400, 403}[r.Intn(3)]
+		ps.Auth.Set("refresh", rt, sut.Status(refusal))
+		ps.Auth.Set("validate", at, sut.Status(refusal))
+		ps.Auth.Set("validate", nt, sut.Status(refusal))
+		ps.Auth.Set("profile", at, sut.ProfileOK(email, []string{"nobody"}))
+		ps.Auth.Set("profile", nt, sut.ProfileOK(email, []string{"nobody"}))
+		for k := 0; k < 1+r.Intn(2); k++ {
+			target := []string{"/stale/" + uid + "/again", "/oauth2/auth"}[r.Intn(2)]
+			second := ps.Client.Do(sut.Req{Host: host, Target: target, Cookies: []string{cookie}})
+			if second.Err != nil {
+				rep.Count("client_errors", 1)
+				return
+			}
+			rep.Distinct(fmt.Sprintf("stale|%s|%s|%d|%s", host, kind, refusal, target[:4]))
+			if len(ps.Hits(second.ID)) > 0 || second.Status == 202 || strings.Contains(string(second.Body), "UPSTREAM-CONTENT-") {
+				rep.Violate("c01-stale", i, "backend-reached-unauthorised failing=due-check-not-passed at="+kind+" copy=presented-after-another-copy-passed-its-check",
+					fmt.Sprintf("a copy of the cookie whose %s was still due was let through after the authenticator had begun to refuse (%d); an earlier copy had passed its check", kind, refusal),
+					map[string]interface{}{"index": i, "host": host, "due": kind, "refusal": refusal, "target": target, "status": second.Status})
+				return
+			}
+		}
+		rep.Count("stale_copies_second_copy_refused", 1)
+		rep.Count("stale_copies_second_copy_refused_due_"+kind, 1)
+	})
+	rep.Floor("stale_copies_second_copy_refused", 80)
+	rep.Floor("stale_copies_second_copy_refused_due_refresh", 20)
+	rep.Floor("stale_copies_second_copy_refused_due_validate", 20)
 }
